@@ -152,12 +152,19 @@ def perturb(rng, pkts, kind):
         by_dir = {}
         for i in data:
             by_dir.setdefault(out[i]["isserver"], []).append(i)
-        cands = [(d, a) for d, idx in by_dir.items() for a in range(1, len(idx) - 1)]
+        # ... and no data of the peer lies between the slots involved: what the peer sends next may depend on the late segment having
+        # arrived (a ServerHello cannot be captured before the end of the ClientHello it answers), so a segment is only overtaken within
+        # one flight of its direction
+        other = {d: [i for i in data if out[i]["isserver"] != d] for d in by_dir}
+        same_flight = lambda d, x, y: not any(x < j < y for j in other[d])
+        cands = [(d, a) for d, idx in by_dir.items() for a in range(1, len(idx) - 1) if same_flight(d, idx[a], idx[a + 1])]
         if not cands:
             return None
         d, a = rng.choice(cands)
         idx = by_dir[d]
         b = min(len(idx) - 1, a + rng.randrange(1, 4))
+        while not same_flight(d, idx[a], idx[b]):
+            b -= 1
         moved = [out[i] for i in idx[a + 1:b + 1]] + [out[idx[a]]]
         for slot, p in zip(idx[a:b + 1], moved):
             out[slot] = p
